@@ -71,6 +71,9 @@ func buildModCatalog() []mCfg {
 	c = append(c, mCfg{stacking: 1, dur: 2, status: 1, dispel: true})                                                                                                                  // 28: replace-by-source without count or stack increment (count stays "infinite")
 	c = append(c, mCfg{stacking: 6, dur: 2, max: 4, status: 2, dispel: true})                                                                                                          // 29: merge, the same
 	c = append(c, mCfg{stacking: 2, status: 1})                                                                                                                                        // 30: replace, permanent, the same
+	c = append(c, mCfg{stacking: 3, dur: 3, status: 1, hooks: map[string][]mAct{"OnPhase1": {{kind: "R", name: 17}}}})                                                                 // 31: its phase-1 listener detaches modifier 17, whose own phase-1 listener (leave) is still reached by the sweep
+	c = append(c, mCfg{stacking: 3, dur: 3, status: 2, dispel: true, hooks: map[string][]mAct{"OnPhase2": {{kind: "R", name: 33}}}})                                                   // 32: the same in phase 2 ...
+	c = append(c, mCfg{stacking: 3, count: 2, max: 3, status: 1, hooks: map[string][]mAct{"OnPhase2": {{kind: "S"}}}})                                                                 // 33: ... for a modifier that leaves in phase 2
 	return c
 }
 
@@ -434,9 +437,10 @@ func (modComp) Exec(c *wire.Case, w *wire.Writer) {
 			case "rmsrc":
 				sess.mgr.RemoveModifierFromSource(t, key.TargetID(op.Int("src")), nm)
 			case "rmself":
-				for _, vi := range sess.mgr.VerifInstances(t) {
-					if sess.uids[vi.Inst] == op.Int("uid") {
-						vi.Inst.RemoveSelf()
+				// through the handle, as content does: also for an instance that has left its unit since (nothing may happen then)
+				for inst, u := range sess.uids {
+					if u == op.Int("uid") && inst.Owner() == t {
+						inst.RemoveSelf()
 						break
 					}
 				}
@@ -621,6 +625,10 @@ func (modComp) Gen(r *rand.Rand, tier string, n int) []*wire.Case {
 		one(wire.R("dispel").I("t", 1).I("status", 1).I("order", 2).I("count", 1)))...)
 	mk("d-rmself-middle", add(1, 3, 1, 0, 0, ""), add(1, 3, 2, 0, 0, ""), add(1, 3, 3, 0, 0, ""), add(1, 14, 1, 0, 0, ""), wire.R("rmself").I("t", 1).I("uid", 2),
 		wire.R("dispel").I("t", 1).I("status", 1).I("order", 1).I("count", 1))
+	mk("d-rmself-stale", cat2([]*wire.Rec{add(1, 3, 1, 0, 0, ""), add(1, 3, 2, 0, 0, ""), add(1, 14, 1, 0, 0, ""), wire.R("rmself").I("t", 1).I("uid", 2), wire.R("rmself").I("t", 1).I("uid", 2),
+		wire.R("rm").I("t", 1).I("name", 14), wire.R("rmself").I("t", 1).I("uid", 3), add(2, 3, 1, 1, 0, "")}, turn(2), turn(2), one(wire.R("rmself").I("t", 2).I("uid", 4)), one(wire.R("rmself").I("t", 1).I("uid", 4)))...)
+	mk("d-sweep-reaches-detached", cat2([]*wire.Rec{add(1, 31, 1, 0, 0, ""), add(1, 17, 1, 0, 0, ""), add(1, 3, 1, 0, 0, ""), add(2, 17, 1, 0, 0, ""), add(2, 31, 1, 0, 0, ""), add(3, 32, 1, 0, 0, ""), add(3, 33, 1, 0, 0, ""), add(3, 33, 2, 0, 0, "")},
+		turn(1), turn(2), turn(3), turn(1), turn(3))...)
 	mk("d-tick", cat2(one(add(1, 3, 1, 2, 0, "")), one(add(1, 10, 1, 2, 0, "")), turn(1), turn(2), turn(1), turn(1))...)
 	mk("d-tick-imm", cat2(one(tick(1, 0)), one(add(1, 3, 1, 1, 0, "").I("x", 0)), one(wire.R("addmod").I("t", 1).I("name", 3).I("src", 2).I("dur", 1).I("count", 0).I("max", 0).I("cadd", 0).B("imm", true).S("stats", "-")),
 		one(tick(1, 2)), one(wire.R("addmod").I("t", 1).I("name", 3).I("src", 3).I("dur", 1).I("count", 0).I("max", 0).I("cadd", 0).B("imm", true).S("stats", "-")), one(tick(1, 3)), turn(1))...)
@@ -679,7 +687,7 @@ func (modComp) Gen(r *rand.Rand, tier string, n int) []*wire.Case {
 			t := pick(r, 1, 1, 2, 3)
 			name := r.Intn(len(modCatalog))
 			if r.Intn(2) == 0 {
-				name = pick(r, 0, 1, 2, 3, 3, 4, 5, 6, 10, 14, 25, 26, 27, 25, 26)
+				name = pick(r, 0, 1, 2, 3, 3, 4, 5, 6, 10, 14, 25, 26, 27, 25, 26, 17, 31, 32, 33, 33)
 			}
 			switch r.Intn(16) {
 			case 0, 1, 2, 3, 4, 5:
